@@ -280,7 +280,7 @@ Start(ap) == /\ w.st = "none" /\ runs < MaxRuns
              /\ UNCHANGED <<dir, files, clk, logged, wt, trigs, advs, gone, okgone, extgone, exts, moved, olddirs, sws, needReopen>>
 
 Write(len) ==
-    /\ w.st \in {"init", "act"} /\ Len(logged) < MaxRecs /\ ~needReopen
+    /\ w.st \in {"init", "act"} /\ Len(logged) < MaxRecs
     /\ LET id  == Len(logged) + 1
            lg  == Append(logged, len)
            i0  == IF w.st = "init" THEN Initialize(cfg, dir, files, clk)
@@ -298,8 +298,14 @@ Write(len) ==
           /\ dir' = r0.d
           /\ gone' = gone \cup (before \ after)
           /\ okgone' = okgone \cup i0.legit \cup cleaned
+          \* Until reopen_output() is called the writer keeps its file, wherever the environment has moved it; what it
+          \* writes into a file the environment has REMOVED is gone with it. A rotation opens a file at a family path
+          \* again, which ends that state.
+          /\ needReopen' = (needReopen /\ r0.w.ino = w.ino)
+          /\ extgone' = IF r0.w.ino \in Range(r0.d) \/ r0.w.ino \in Range(moved) THEN extgone
+                         ELSE extgone \cup {id} \cup Range(bw.buf)
     /\ hist' = H([op |-> "Log", len |-> len])
-    /\ UNCHANGED <<clk, cfg, runs, trigs, advs, forced, extgone, exts, moved, olddirs, sws, needReopen>>
+    /\ UNCHANGED <<clk, cfg, runs, trigs, advs, forced, exts, moved, olddirs, sws>>
 
 \* trigger_rotation before the first write or without rotation does nothing (state.rs:460)
 TriggerNoop == /\ w.st = "init" \/ (w.st = "act" /\ ~cfg.rot)
@@ -308,7 +314,7 @@ TriggerNoop == /\ w.st = "init" \/ (w.st = "act" /\ ~cfg.rot)
                /\ hist' = H([op |-> "Trigger"])
                /\ UNCHANGED <<dir, files, w, clk, cfg, logged, wt, runs, advs, gone, okgone, extgone, exts, moved, olddirs, sws, needReopen>>
 
-Trigger == /\ w.st = "act" /\ cfg.rot /\ trigs < MaxTrig /\ ~needReopen
+Trigger == /\ w.st = "act" /\ cfg.rot /\ trigs < MaxTrig
            /\ LET r0 == Rotate(cfg, dir, files, w, clk)
                   before == AllIdsIn(dir, FlushInto(files, w))
                   after  == AllIdsIn(r0.d, r0.f)
@@ -317,18 +323,20 @@ Trigger == /\ w.st = "act" /\ cfg.rot /\ trigs < MaxTrig /\ ~needReopen
                  /\ okgone' = okgone \cup (IF cfg.clean THEN before \ after ELSE {})
            /\ trigs' = trigs + 1
            /\ forced' = forced \cup {Len(logged)}
+           /\ needReopen' = FALSE                   \* (the rotation has opened a file at a family path)
+           /\ extgone' = IF w.ino \in Range(dir) \/ w.ino \in Range(moved) THEN extgone ELSE extgone \cup Range(w.buf)
            /\ hist' = H([op |-> "Trigger"])
-           /\ UNCHANGED <<clk, cfg, logged, wt, runs, advs, extgone, exts, moved, olddirs, sws, needReopen>>
+           /\ UNCHANGED <<clk, cfg, logged, wt, runs, advs, exts, moved, olddirs, sws>>
 
-Flush == /\ w.st = "act" /\ w.buf # <<>> /\ ~needReopen
+Flush == /\ w.st = "act" /\ w.buf # <<>>
          /\ files' = FlushInto(files, w) /\ w' = [w EXCEPT !.buf = <<>>]
          /\ hist' = H([op |-> "Flush"])
          /\ UNCHANGED <<dir, clk, cfg, logged, wt, runs, trigs, advs, gone, okgone, forced, extgone, exts, moved, olddirs, sws, needReopen>>
 
-Stop == /\ w.st \in {"init", "act"} /\ ~needReopen
-        /\ files' = FlushInto(files, w) /\ w' = NoWriter
+Stop == /\ w.st \in {"init", "act"}
+        /\ files' = FlushInto(files, w) /\ w' = NoWriter /\ needReopen' = FALSE
         /\ hist' = H([op |-> "Stop"])
-        /\ UNCHANGED <<dir, clk, cfg, logged, wt, runs, trigs, advs, gone, okgone, forced, extgone, exts, moved, olddirs, sws, needReopen>>
+        /\ UNCHANGED <<dir, clk, cfg, logged, wt, runs, trigs, advs, gone, okgone, forced, extgone, exts, moved, olddirs, sws>>
 
 Advance(dt) == /\ advs < MaxAdv /\ clk' = clk + dt /\ advs' = advs + 1
                /\ hist' = H([op |-> "Adv", dt |-> dt])
